@@ -274,6 +274,12 @@ func (e *Emitter) emitScriptStatement(scriptStmt *ast.ScriptStatement, textLabel
 			if !ok {
 				return "", errors.New("could not emit 'continue' statement because its return point is unknown")
 			}
+			if !curChunk.isLastStatement(i) {
+				// A 'continue' that ends a poryswitch case can be followed by more statements of the
+				// enclosing block. Like after 'break', keep them so their labels aren't eliminated.
+				chunkCounter++
+				remainingChunks = append(remainingChunks, curChunk.createPostLogicChunk(chunkCounter, i))
+			}
 			completeChunk := &chunk{
 				id:             curChunk.id,
 				returnID:       curChunk.returnID,
